@@ -229,6 +229,9 @@ func init() {
 			}
 		}
 	}
+	commands["iso"] = isoRun
+	commands["flvconv"] = flvConv
+	commands["tsconv"] = tsConv
 	// TS AAC packetizer with an arbitrary AudioSpecificConfig, then audio frames
 	commands["tsaac"] = func(c Val) Val {
 		w := &nullTs{}
